@@ -75,6 +75,33 @@ def find_break_point(line, max_index, key_list):
         f" for line '{line[:max_index]}' and keys '{str(key_list)}'")
 
 
+def find_inline_comment(line):
+    ''' Finds the start of any in-line comment in a line of Fortran code,
+    i.e. the first "!" that is not within a character string.
+
+    :param str line: the line of Fortran code to examine.
+
+    :returns: the index of the "!" that starts the in-line comment or -1 \
+        if there isn't one (or if this cannot be decided because the \
+        line continues a previous line and thus might begin within a \
+        character string).
+    :rtype: int
+
+    '''
+    if line.lstrip().startswith("&"):
+        return -1
+    quote = None
+    for idx, char in enumerate(line):
+        if quote:
+            if char == quote:
+                quote = None
+        elif char in "'\"":
+            quote = char
+        elif char == "!":
+            return idx
+    return -1
+
+
 class FortLineLength():
 
     ''' This class take a free format fortran code as a string and
@@ -132,6 +159,19 @@ class FortLineLength():
         for line in fortran_in.split('\n'):
             if len(line) > self._line_length:
                 line_type = self._get_line_type(line)
+
+                if line_type in ["statement", "unknown"]:
+                    comment_idx = find_inline_comment(line)
+                    if comment_idx > 0:
+                        # The line ends with an in-line comment. This must
+                        # not be wrapped as if it were code so move it to a
+                        # line of its own (following the code) and wrap
+                        # the two parts separately.
+                        indent = line[:len(line) - len(line.lstrip())]
+                        for part in [line[:comment_idx].rstrip(),
+                                     indent + line[comment_idx:]]:
+                            fortran_out += self.process(part) + "\n"
+                        continue
 
                 c_start = self._cont_start[line_type]
                 c_end = self._cont_end[line_type]
